@@ -21,6 +21,8 @@ import (
 	"sort"
 	"strings"
 	"sync"
+	"syscall"
+	"time"
 
 	"github.com/arnodel/golua/lib"
 	"github.com/arnodel/golua/lib/base"
@@ -74,6 +76,13 @@ var fragments = []fragment{
 	{"ctxprobe", "options", false, []string{`return runtime and runtime.context().flags`, `local k = runtime and runtime.context().kill; return k and k.cpu, k and k.memory, k and k.millis`,
 		`return runtime and runtime.context().status`, `return type(math), type(io), type(utf8), type(debug)`}},
 	{"output", "output", true, []string{`print("hello", 1)`, `warn("@on") warn("careful") return 1`, `print(("x"):rep(3))`, `warn("again") return 2`}},
+	// warnings WITHOUT switching the warner on: silent alone (a runtime's warner starts switched off)
+	{"warnquiet", "warn", false, []string{`warn("quiet one") return 1`, `warn("quiet ", "two") return 2`, `return 3`, `warn("quiet three") return 4`}},
+	// call-heavy code: register sets and continuations are taken from and given back to the runtime's pools all the time
+	{"calls", "pools", false, []string{`local function fib(n) if n < 2 then return n end return fib(n-1) + fib(n-2) end return fib(17)`,
+		`local function sum(...) local s = 0 for i = 1, select('#', ...) do s = s + (select(i, ...)) end return s end local t = 0 for i = 1, 300 do t = t + sum(i, i+1, i+2, i+3) end return t`,
+		`local function depth(n) if n == 0 then return 0 end return 1 + depth(n - 1) end return depth(150)`,
+		`local t = {} for i = 1, 300 do t[#t+1] = tostring(i):rep(2) end return #table.concat(t)`}},
 	{"heavy", "options", false, []string{`local s = 0 for i = 1, 20000 do s = s + i end return s`, `local t = {} for i = 1, 2000 do t[i] = tostring(i) end return #t`,
 		`return #string.rep("ab", 5000)`, `local n = 0 for w in string.gmatch(string.rep("a ", 500), "%a") do n = n + 1 end return n`}},
 }
@@ -192,6 +201,46 @@ func (p prog) stmts() []string {
 	return s
 }
 
+// What the process writes to file descriptor 2 (the default warner of a runtime writes "Lua warning: …" there) is
+// captured into a file and read back after every statement: it is part of the trace of the runtime that just ran.
+var (
+	errCapture *os.File
+	errOffset  int64
+	errEnabled bool
+)
+
+func captureStderr() {
+	if os.Getenv("C20_NO_STDERR_CAPTURE") != "" {
+		return
+	}
+	f, err := os.CreateTemp("", "c20-stderr-")
+	if err != nil {
+		return
+	}
+	os.Remove(f.Name())
+	if err := syscall.Dup2(int(f.Fd()), 2); err != nil {
+		return
+	}
+	errCapture, errEnabled = f, true
+}
+
+func readStderr() string {
+	if errCapture == nil {
+		return ""
+	}
+	st, err := errCapture.Stat()
+	if err != nil || st.Size() <= errOffset {
+		return ""
+	}
+	b := make([]byte, st.Size()-errOffset)
+	n, _ := errCapture.ReadAt(b, errOffset)
+	errOffset += int64(n)
+	if !errEnabled {
+		return ""
+	}
+	return string(b[:n])
+}
+
 type runner struct {
 	h     *runtimeHandle
 	r     *rt.Runtime
@@ -228,6 +277,12 @@ func (x *runner) step() {
 	if x.h.warn.Len() > 0 {
 		parts = append(parts, "warn:"+hex.EncodeToString(x.h.warn.Bytes()))
 		x.h.warn.Reset()
+	}
+	if errCapture != nil && !errEnabled {
+		// several runtimes write to fd 2 at the same time: whose bytes they are cannot be told
+		parts = append(parts, "stderr:?")
+	} else if e := readStderr(); e != "" {
+		parts = append(parts, "stderr:"+hex.EncodeToString([]byte(e)))
 	}
 	x.trace = append(x.trace, strings.Join(parts, ","))
 }
@@ -368,6 +423,11 @@ func interleaved(a, b prog, sched func(i int) bool) (ta, tb []string) {
 }
 
 func concurrent(a, b prog) (ta, tb []string) {
+	// (what two goroutines write to fd 2 at the same time cannot be told apart: not part of the trace here)
+	readStderr()
+	was := errEnabled
+	errEnabled = false
+	defer func() { readStderr(); errEnabled = was }()
 	var wg sync.WaitGroup
 	wg.Add(2)
 	go func() {
@@ -382,9 +442,27 @@ func concurrent(a, b prog) (ta, tb []string) {
 	return
 }
 
+// sameEntry: equal, where "stderr:?" (written to fd 2 concurrently with another runtime: unattributable) matches
+// any or no stderr part
+func sameEntry(a, b string) bool {
+	if a == b {
+		return true
+	}
+	if !strings.HasSuffix(a, "stderr:?") && !strings.HasSuffix(b, "stderr:?") {
+		return false
+	}
+	strip := func(x string) string {
+		if i := strings.LastIndex(x, ",stderr:"); i >= 0 {
+			return x[:i]
+		}
+		return x
+	}
+	return strip(a) == strip(b)
+}
+
 func firstDiff(solo []string, stable []bool, got []string) int {
 	for i := range solo {
-		if stable[i] && (i >= len(got) || solo[i] != got[i]) {
+		if stable[i] && (i >= len(got) || !sameEntry(solo[i], got[i])) {
 			return i
 		}
 	}
@@ -633,6 +711,7 @@ func main() {
 	realOut := os.Stdout
 	_ = realOut
 	os.Stdout = devnull // golua's io library writes here; hlib.Out keeps the real stdout
+	captureStderr()
 	defer hlib.Out.Flush()
 	rng := hlib.NewRng(hlib.Seed())
 	switch os.Args[1] {
@@ -664,6 +743,74 @@ func main() {
 					hlib.Emit("pair", a.id, b.id, s.name, "diff", nt)
 					key, w, i, want, got := minimise(a, b, run)
 					hlib.Emit("witness", key, w, fmt.Sprint(i), hx(want), hx(got), s.name)
+				}
+			}
+		}
+	case "stress":
+		// many runtimes at once, each on its own goroutine, running call-heavy programs; every trace is compared
+		// with the solo trace of the same program
+		tier := os.Args[2]
+		rounds, width := 6, 8
+		if tier == "thorough" {
+			rounds, width = 40, 16
+		} else if tier == "race" {
+			rounds = 4
+		}
+		var ps []prog
+		for _, id := range []string{"calls+heavy", "calls+iter+coro", "heavy+calls+strmetaread", "calls"} {
+			p, _ := progFromID(id, "")
+			ps = append(ps, p)
+		}
+		prefillAll(ps)
+		readStderr()
+		errEnabled = false
+		for round := 0; round < rounds; round++ {
+			traces := make([][]string, width)
+			var wg sync.WaitGroup
+			for i := 0; i < width; i++ {
+				i := i
+				wg.Add(1)
+				go func() {
+					defer wg.Done()
+					defer func() {
+						if r := recover(); r != nil {
+							traces[i] = append(traces[i], fmt.Sprint("go-panic:", r))
+						}
+					}()
+					traces[i] = solo(ps[i%len(ps)])
+				}()
+			}
+			finished := make(chan bool)
+			go func() { wg.Wait(); close(finished) }()
+			select {
+			case <-finished:
+			case <-time.After(60 * time.Second):
+				// runtimes that corrupt each other can loop for ever: that is a result, not a reason to hang the check
+				hlib.Emit("conc", "stress", fmt.Sprintf("x%d", width), "diff", "1")
+				hlib.Emit("witness", "concurrent-stress:hang", "A", "-1", hx("terminates alone"), hx("still running after 60 s"), fmt.Sprintf("%d runtimes on goroutines", width))
+				hlib.Out.Flush()
+				os.Exit(0)
+			}
+			for i := 0; i < width; i++ {
+				p := ps[i%len(ps)]
+				sa, st := soloStable(p)
+				if j := firstDiff(sa, st, traces[i]); j >= 0 {
+					g := "<missing>"
+					if j < len(traces[i]) {
+						g = traces[i][j]
+					}
+					frag, n := "?", 0
+					for _, f := range p.frags {
+						if j < n+len(f.stmts) {
+							frag = f.name
+							break
+						}
+						n += len(f.stmts)
+					}
+					hlib.Emit("conc", p.id, fmt.Sprintf("x%d", width), "diff", "1")
+					hlib.Emit("witness", "concurrent-stress:"+frag, "A", fmt.Sprint(j), hx(sa[j]), hx(g), fmt.Sprintf("%d runtimes on goroutines", width))
+				} else {
+					hlib.Emit("conc", p.id, fmt.Sprintf("x%d", width), "same", "1")
 				}
 			}
 		}
